@@ -135,7 +135,7 @@ def run_ellipsoid(block, ctx):
 
 POINTS = [(0, 0), (10, 0), (-170, 0), (170, 0), (180, 0), (90, 0), (0, 45), (0, -45), (0, 90), (0, -90),
           (77.065, 38.92), (-2.337, 48.836), (0, 1e-7), (1e-7, 0), (179.9, -0.1), (-179.95, 0.05),
-          (77.065, -10.5), (-102.935, -38.92)]
+          (77.065, -10.5), (-102.935, -38.92), (0, 1), (0, 89.999), (0, 0.001)]
 
 
 def simpson_meridian(e, p1, p2, n=2000):
